@@ -178,7 +178,103 @@ def _derived_goals(c, it, ch, s, g, tag):
     return goals
 
 
+def _native_history(seq, seed=0):
+    """the same mutator history on a real solver with generic values; after every step all derived quantities are read and compared
+    with an independent ghost (current precoders, filters, power).  -> first disagreement or None"""
+    import pyphysim.channels.multiuser as mu
+    import pyphysim.ia.algorithms as alg
+    rr = np.random.RandomState(4242 + seed)
+    ch = mu.MultiUserChannelMatrix()
+    ch.randomize(N, N, K)
+    s = alg.AlternatingMinIASolver(ch)
+    g = {"F": None, "P": None, "full": None, "W": None}
+    cm = lambda a, b: rr.randn(a, b) + 1j * rr.randn(a, b)       # noqa: E731
+
+    def objarr(lst):
+        a = np.empty(len(lst), dtype=object)
+        for i, x in enumerate(lst):
+            a[i] = x
+        return a
+    done = []
+    for op in seq:
+        if op == "P_scalar":
+            v = float(rr.rand() + 0.3)
+            s.P = v
+            g["P"], g["full"] = [v] * K, None
+        elif op == "P_vector":
+            v = [float(x) for x in rr.rand(K) + 0.3]
+            s.P = list(v)
+            g["P"], g["full"] = v, None
+        elif op == "P_none":
+            s.P = None
+            g["P"], g["full"] = None, None
+        elif op in ("setF", "setFP"):
+            F = [cm(N, NS) for _ in range(K)]
+            F = [f / np.linalg.norm(f, 'fro') for f in F]
+            if op == "setFP":
+                v = rr.rand(K) + 0.3
+                s.set_precoders(objarr(F), None, v.copy())
+                g["P"] = [float(x) for x in v]
+            else:
+                s.set_precoders(objarr(F))
+            g["F"], g["full"] = F, None
+        elif op == "setFullF":
+            X = [cm(N, NS) for _ in range(K)]
+            s.set_precoders(None, objarr(X))
+            g["full"] = X
+            g["F"] = [x / np.linalg.norm(x, 'fro') for x in X]
+        elif op in ("setW", "setWH"):
+            W = [cm(N, NS) for _ in range(K)]
+            if op == "setW":
+                s.set_receive_filters(None, objarr(W))
+            else:
+                s.set_receive_filters(objarr([w.conj().T for w in W]))
+            g["W"] = W
+        elif op == "randF":
+            s.randomizeF(NS)
+            g["F"] = [np.array(f) for f in s.F]
+            g["P"], g["full"] = None, None
+        done.append(op)
+        if g["F"] is None:
+            continue
+        P = g["P"] if g["P"] is not None else [1.0] * K
+        where = {"confirmed": True, "history": ">".join(done)}
+        spec_full = [g["full"][k] if g["full"] is not None else g["F"][k] * np.sqrt(P[k]) for k in range(K)]
+        for k in range(K):
+            if (not (abs(float(np.asarray(s.P)[k]) - P[k]) <= 1e-12)):
+                return dict(where, quantity="P[%d]" % k, observed=float(np.asarray(s.P)[k]), expected=P[k])
+            if (not (np.abs(s.full_F[k] - spec_full[k]).max() <= 1e-10)):
+                return dict(where, quantity="full_F[%d] vs F*sqrt(P_current)" % k, observed=repr(np.asarray(s.full_F[k]).ravel().tolist())[:160],
+                            expected=repr(spec_full[k].ravel().tolist())[:160])
+            if (not (np.abs(s.F[k] - g["F"][k]).max() <= 1e-10)):
+                return dict(where, quantity="F[%d]" % k)
+            if int(s.Ns[k]) != NS:
+                return dict(where, quantity="Ns[%d]" % k, observed=int(s.Ns[k]), expected=NS)
+        if g["W"] is not None:
+            for k in range(K):
+                wh = g["W"][k].conj().T
+                if (not (np.abs(s.W[k] - g["W"][k]).max() <= 1e-10)) or (not (np.abs(s.W_H[k] - wh).max() <= 1e-10)):
+                    return dict(where, quantity="W[%d] / W_H[%d]" % (k, k))
+                spec = np.linalg.solve(wh @ ch.H[k, k] @ spec_full[k], wh)
+                if (not (np.abs(s.full_W_H[k] - spec).max() <= 1e-8 * max(1.0, np.abs(spec).max()))):
+                    return dict(where, quantity="full_W_H[%d] vs (W^H H_kk full_F_current)^-1 W^H" % k,
+                                observed=repr(np.asarray(s.full_W_H[k]).ravel().tolist())[:160], expected=repr(spec.ravel().tolist())[:160])
+                if (not (np.abs(s.full_W[k] - spec.conj().T).max() <= 1e-8 * max(1.0, np.abs(spec).max()))):
+                    return dict(where, quantity="full_W[%d]" % k)
+    return None
+
+
 def _history(seq):
+    def rp(model):
+        try:
+            for seed in range(3):
+                bad = _native_history(seq, seed)
+                if bad:
+                    return bad
+            return {"confirmed": False, "history": ">".join(seq), "note": "real solver agrees with the ghost for generic values along this history"}
+        except Exception as e:
+            return {"confirmed": False, "error": "replay crashed: %r" % (e,)}
+
     def body(c, it):
         c.axioms_on = False
         ch, s, draws = _new(c, it)
@@ -188,7 +284,7 @@ def _history(seq):
             _apply(c, it, s, g, op, str(i), draws)
             goals += _derived_goals(c, it, ch, s, g, ">".join(seq[:i + 1]))
         return goals
-    return verify(body, check_side=False, timeout_ms=30000)
+    return verify(body, check_side=False, timeout_ms=30000, replay=rp)
 
 
 @obligation("inv10/histories", params=[{"first": o} for o in OPS], timeout=600,
@@ -418,11 +514,12 @@ def _iterative(name, exact_power, monotone):
         # precoder becomes rank deficient and is reduced at the end of solve() (rarely executed branch)
         if name in ("MaxSinrIASolver", "MMSEIASolver"):
             for seed in range(3 if quick() else 12):
-                yield {"seed": seed, "n": 4, "init": "random", "P": "wild0", "noise": 1e-8 if name == "MaxSinrIASolver" else 0.1,
-                       "ns": 2, "full_iterations": True}
+                for weak in (0, 1, 2):          # the starved user is the first, a middle or the last one
+                    yield {"seed": seed, "n": 4, "init": "random", "P": "wild%d" % weak, "noise": 1e-8 if name == "MaxSinrIASolver" else 0.1,
+                           "ns": 2, "full_iterations": True}
         for i in range(30 if quick() else 300):
             yield {"seed": int(r.randint(1 << 30)), "n": int(2 + i % 3), "init": ["random", "closed_form", "alt_min", "svd"][(i // 3) % 4],
-                   "P": [1.0, "vec", "wild"][(i // 12) % 3], "noise": [1e-3, 0.1][i % 2]}
+                   "P": [1.0, "vec", "wild"][(i // 12) % 3], "noise": [1e-3, 0.1][i % 2], "pathloss": bool(i % 2 == 1)}
 
     def check(case):
         rr = np.random.RandomState(case["seed"])
@@ -436,6 +533,8 @@ def _iterative(name, exact_power, monotone):
         ch = mu.MultiUserChannelMatrix()
         ch._RS_channel = np.random.RandomState(case["seed"])
         ch.randomize(n, n, 3)
+        if case.get("pathloss"):
+            ch.set_pathloss(10 ** rr.uniform(-3, 0, (3, 3)))         # every quantity of the solver is built on the links WITH their path loss
         ch.noise_var = case["noise"]
         cls = getattr(alg, name)
         s = cls(ch)
@@ -450,8 +549,8 @@ def _iterative(name, exact_power, monotone):
         if not case.get("full_iterations"):
             s.max_iterations = 12
         P = case["P"]
-        if P == "wild0":
-            P = np.array([1e-4, 100.8, 230.0])
+        if isinstance(P, str) and P.startswith("wild") and P[4:].isdigit():
+            P = np.roll(np.array([1e-4, 100.8, 230.0]), int(P[4:]))
         elif P == "vec":
             P = rr.rand(3) * 5 + 0.2
         elif P == "wild":
